@@ -18,7 +18,9 @@ from mc.explore import Property, Result, digest, jdump, violation
 from mc.kern_ref import quantise
 
 REP = [("a", 0x61), ("b", 0x62), ("f_i", None), ("acutecomb", 0x301), ("gravecomb", 0x300),
-       ("cedillacomb", 0x327), ("ka-deva", 0x915), ("anusvara-deva", 0x902)]
+       ("cedillacomb", 0x327), ("ka-deva", 0x915), ("anusvara-deva", 0x902),
+       # a second Indic script that the "deva" environment does NOT declare with a languagesystem
+       ("ka-beng", 0x995), ("anusvara-beng", 0x982)]
 ALLOWED = {
     "a": ["top", "bottom", "top.alt"],
     "b": ["top", "bottom"],
@@ -28,14 +30,17 @@ ALLOWED = {
     "cedillacomb": ["_bottom", "bottom", "_top"],
     "ka-deva": ["top", "bottom"],
     "anusvara-deva": ["_top", "_bottom"],
+    "ka-beng": ["top"],
+    "anusvara-beng": ["_top"],
 }
 # (zero coordinates on purpose: 0 is a valid, falsy coordinate)
 POS = [(0, 20), (10.5, 20.5), (-250.5, 0), (104.75, 494.75)]
 OPS = [(g, n) for g, _ in REP for n in ALLOWED[g]]
 CATEGORIES = {"a": "base", "b": "base", "ka-deva": "base", "f_i": "ligature", "acutecomb": "mark",
-              "gravecomb": "mark", "cedillacomb": "mark", "anusvara-deva": "mark"}
-GDEF_FEA = ("table GDEF { GlyphClassDef [a b ka-deva], [f_i], "
-            "[acutecomb gravecomb cedillacomb anusvara-deva], ; } GDEF;\n")
+              "gravecomb": "mark", "cedillacomb": "mark", "anusvara-deva": "mark", "ka-beng": "base",
+              "anusvara-beng": "mark"}
+GDEF_FEA = ("table GDEF { GlyphClassDef [a b ka-deva ka-beng], [f_i], "
+            "[acutecomb gravecomb cedillacomb anusvara-deva anusvara-beng], ; } GDEF;\n")
 ENVS = [[], ["categories"], ["user-gdef"], ["group"], ["q5"], ["q10"], ["deva"], ["categories", "group"],
         ["categories", "deva"], ["q5", "group"], ["fea-markclass"]]
 # a hand-written markClass statement left in features.fea whose anchor differs from the UFO's
@@ -153,7 +158,7 @@ def evaluate(tt, spec, env, counters):
                 counters["pairs_evaluated"] += 1
                 feat = {"env": sorted(env), "g_is_mark": is_mark_glyph(G), "ncand": len(cands),
                         "g_has_mark_anchor": any(n.startswith("_") and n[1:] in live for n in anchors[G]),
-                        "indic": [G.endswith("-deva"), M.endswith("-deva")]}
+                        "indic": [G.endswith(("-deva", "-beng")), M.endswith(("-deva", "-beng"))]}
                 if cands:
                     counters["pairs_with_candidates"] += 1
                     if len(cands) > 1:
@@ -281,6 +286,8 @@ class C06(Property):
             g, n = OPS[i]
             if (g, n) in have:
                 continue
+            if g.endswith("-beng") and "deva" not in head["env"]:
+                continue  # the Bengali glyphs only matter where Devanagari alone is declared
             # "_1" declares component 1 anchorless; together with "x_1" the input contradicts itself
             if n == "_1" and any(hg == g and hn.endswith("_1") for hg, hn in have):
                 continue
